@@ -96,7 +96,9 @@ func Load(repo string, env []string) (*Prog, error) {
 	renamedKey, renamedType = map[*ssa.Function]string{}, map[*types.TypeName]string{}
 	freshFuncs = map[*ssa.Function]bool{}
 	domCache = map[*ssa.Function]map[*ssa.BasicBlock]*ssa.BasicBlock{}
+	loadingNormalised = true
 	p2, err2 := loadTree(dir, env)
+	loadingNormalised = false
 	if err2 != nil {
 		// the normalised copy does not build (it should): fall back to the tree as it is
 		fwdAlias, fwdTarget = map[*ssa.Function]*ssa.Function{}, map[*ssa.Function]*ssa.Function{}
@@ -1201,9 +1203,41 @@ func (p *Prog) resolveRenamed() {
 		p.Renamed = append(p.Renamed, from.Key+" is "+to.Key+how)
 	}
 	resolved := map[string]bool{}
+	// a function turned into a method or back keeps its name: same package, same shape (the receiver counts as the first
+	// parameter), same bare name
+	bare := func(k string) string { return k[strings.LastIndex(k, ".")+1:] }
+	for g, ms := range missing {
+		var restM []declFunc
+		for _, m := range ms {
+			var hit *declFunc
+			n := 0
+			for i := range fresh[g] {
+				if f := fresh[g][i]; !taken[f.Key] && bare(f.Key) == bare(m.Key) {
+					hit = &fresh[g][i]
+					n++
+				}
+			}
+			if n == 1 {
+				give(*hit, m, " (same name and signature, the receiver taken as the first parameter)")
+				resolved[m.Key] = true
+			} else {
+				restM = append(restM, m)
+			}
+		}
+		if len(restM) != len(ms) {
+			missing[g] = restM
+			var restF []declFunc
+			for _, f := range fresh[g] {
+				if !taken[f.Key] {
+					restF = append(restF, f)
+				}
+			}
+			fresh[g] = restF
+		}
+	}
 	for g, ms := range missing {
 		fs := fresh[g]
-		if len(fs) != len(ms) {
+		if len(fs) != len(ms) || len(ms) == 0 {
 			continue
 		}
 		sort.Slice(ms, func(i, j int) bool { return ms[i].Order < ms[j].Order })
